@@ -17,6 +17,10 @@ READER = [
 ]
 
 
+def method_of_name(n):
+    return re.sub(r"::<[^>]*>", "", n).rsplit("::", 1)[-1]
+
+
 def classify(f, term, table):
     name = term.get("resolved") or term.get("callee") or ""
     for pat, kind, width in table:
@@ -161,6 +165,15 @@ def region(f, start, stop, table, good, loops_seen=None, depth=0):
                     width = static_array_len(f, t["args"][-1])
                 src = fmt(f.origin_of_operand(t["args"][-1])) if table is WRITER and len(t["args"]) > 1 else None
                 out.append((kind, width, src, t["span"]["l"][0]))
+            elif method_of_name(t.get("resolved") or t.get("callee") or "") in ("try_fold", "fold", "for_each", "try_for_each", "rfold", "try_rfold") and depth < 4:
+                # an iterator consumer running a closure once per element: the closure body is a loop body
+                for a_ in t["args"][1:]:
+                    m_ = re.search(r"\{closure#\d+\}", fmt(f.origin_of_operand(a_)))
+                    if not m_: continue
+                    cands_ = [g for p_, g in F.fns.items() if p_.endswith(m_.group(0)) and "::{closure" in p_ and p_.rsplit("::{closure", 1)[0] in (f.path, f.path.rsplit("::{closure", 1)[0]) or (p_.endswith(m_.group(0)) and p_.startswith(f.path))]
+                    for g in cands_[:1]:
+                        sub = region(g, 0, None, table, good_blocks(g), None, depth + 1)
+                        if sub: out.append(("loop", sub))
             elif (t.get("resolved") or "") in F.fns and depth < 4:
                 callee = F.fns[t["resolved"]]
                 sub = region(callee, 0, None, table, good_blocks(callee), None, depth + 1)
